@@ -80,6 +80,9 @@ def rank_case(draw, tier):
         sim = [[sg * (8 * o + draw(st.integers(0, 2))) for _ in range(m)]
                for o in obs]
     return {"obs": obs, "sim": sim, "regime": regime,
+            # tie tolerance: lattice values are 0.5 apart, i.e. separated by
+            # more than any of these
+            "eps": draw(st.sampled_from([1e-6, 1e-6, 1e-12, 1e-3, 0.3])),
             "fmap": draw(st.sampled_from(sorted(MAPS))),
             "gmap": draw(st.sampled_from(sorted(MAPS))),
             "perm": draw(st.permutations(list(range(m)))),
@@ -95,7 +98,9 @@ def rank_oracle(case):
     # ensemble ranks against the independent implementation
     fmat = np.zeros((n, n))
     ranks = np.zeros(n)
-    ierr = c_hydrodiy_stat.ensrank(1e-6, sim.copy(), fmat, ranks)
+    eps_ = case.get("eps", 1e-6)
+    labels.append(f"eps:{eps_}")
+    ierr = c_hydrodiy_stat.ensrank(eps_, sim.copy(), fmat, ranks)
     F, R = ref_ranks(sim)
     if ierr != 0:
         raise Violation(f"ensrank returns error {ierr}")
@@ -119,7 +124,8 @@ def rank_oracle(case):
         labels.append("identical-ensembles")
     nt = cross_tie or ident or m == 1
 
-    D = metrics.dscore(obs, sim.copy())
+    D = metrics.dscore(obs, sim.copy(), eps=eps_) if eps_ != 1e-6 \
+        else metrics.dscore(obs, sim.copy())
     # reference forecast ranks as dscore defines them
     fr = np.argsort(np.argsort(sim[:, 0])) if m == 1 else R
     if np.std(fr) == 0:
